@@ -142,8 +142,8 @@ Proof.
     rewrite Ei. cbn [fst snd]. split; [|split; [|split; [|split; [|split; [|split]]]]].
     + unfold frac. rewrite asc_flipx, asc_flipxp by exact Ha. cbn [wd fst snd].
       rewrite <- last0_rnth. rewrite <- hd0_rnth.
-      rewrite (wrapdiff_unique (hd0 xp - last0 xp) P (P / 2) w (-1)%Z HP) by (unfold w; try lra; cbn; ring).
-      rewrite (wrapdiff_unique (x - last0 xp) P (P / 2) (x2 - last0 xp) m HP) by (try lra; rewrite Hm; ring).
+      rewrite (wrapdiff_unique (hd0 xp - last0 xp) P (P / 2) w (-1)%Z HP) by (first [lra | unfold w; simpl IZR; ring]).
+      rewrite (wrapdiff_unique (x - last0 xp) P (P / 2) (x2 - last0 xp) m HP) by (first [lra | rewrite Hm; ring]).
       destruct (Req_EM_T w 0); [lra|]. reflexivity.
     + apply div_bounds. unfold w. lra.
     + fold n. lia.
@@ -165,7 +165,7 @@ Proof.
     rewrite Ei. cbn [fst snd]. split; [|split; [|split; [|split; [|split; [|split]]]]].
     + unfold frac. rewrite asc_flipx, asc_flipxp by exact Ha. cbn [wd fst snd].
       rewrite (wrapdiff_id (rnth xp (i + 1) - rnth xp i) P (P / 2) HP) by lra.
-      rewrite (wrapdiff_unique (x - rnth xp i) P (P / 2) (x2 - rnth xp i) m HP) by (try lra; rewrite Hm; ring).
+      rewrite (wrapdiff_unique (x - rnth xp i) P (P / 2) (x2 - rnth xp i) m HP) by (first [lra | rewrite Hm; ring]).
       destruct (Req_EM_T (rnth xp (i + 1) - rnth xp i) 0); [lra|]. reflexivity.
     + apply div_bounds. lra.
     + fold n. lia.
